@@ -125,13 +125,16 @@ PROPS = {
         "model": "Validate.v (map-order independence of the validation decision); all model transitions are Gallina functions",
         "runs": [app(40, 1500, replicas=REPLICAS),
                  {"kind": "upgrade", "profile": "tz", "n_quick": 200, "n_thorough": 6000, "per_shard": 20, "env": {"TZ": "Europe/Warsaw"}},
-                 {"kind": "upgrade", "profile": "tz", "n_quick": 100, "n_thorough": 3000, "per_shard": 20, "env": {"TZ": "America/St_Johns"}}],
+                 {"kind": "upgrade", "profile": "tz", "n_quick": 100, "n_thorough": 3000, "per_shard": 20, "env": {"TZ": "America/St_Johns"}},
+                 {"kind": "sweep", "profile": "clock", "n_quick": 1, "n_thorough": 1, "per_shard": 1000}],
         "preds": ["C11."],
         "rule": APP_RULE + "; C11: every history is executed in three separate OS processes with different TZ, GOMAXPROCS and node-local x/crisis settings (one skips the "
                 "genesis assertion of the invariants, one checks the invariants after every block); app hash after every Commit, "
                 "DeliverTx (code, codespace, data, events) and BeginBlock/EndBlock events are compared line by line; the v1.2.0 upgrade functions run on "
                 "generated pre-upgrade stores in processes with TZ=Europe/Warsaw and TZ=America/St_Johns, and the account records they write are compared with "
-                "what a node in UTC writes (and with the Coq model of the upgrade)",
+                "what a node in UTC writes (and with the Coq model of the upgrade); profile clock: MsgCreateVestingAccount with start / end times at round distances "
+                "(minutes ... calendar years, ahead and back) from the process's wall clock plus a margin, executed on the same state before and after the wall clock "
+                "passes the margin: the outcomes must be equal (and equal to the front-door model's)",
         "partial": ["Go-runtime nondeterminism (map iteration order, wall clock, local time zone, goroutine scheduling) lives outside any Gallina model: it is "
                     "only exhibited by the multi-process differential runs; nondeterminism that needs another binary, architecture or Go version is not exhibited"],
         "technique": "machine-checked proof in Coq (order-independence of the map-driven validation decision; functional models) + multi-process differential execution of the real application",
@@ -268,9 +271,9 @@ PROPS = {
     "C20": {
         "title": "No message or query of the custom modules panics on any input",
         "model": "Handlers.v: validate_basic, handle (front door of all 17 messages), q_generic, q_account_info; HandlersSweep.v: decoding of the class vectors",
-        "runs": [sweep(), sweep_values(4000, 120000), minter(60, 2500)],
+        "runs": [sweep(), sweep_values(4000, 120000), minter(60, 2500), {"kind": "sig", "profile": "", "n_quick": 120, "n_thorough": 4000, "per_shard": 15}],
         "preds": ["C20."],
-        "rule": MINTER_RULE + " (C20: the Inflation query after every block, incl. mint denominations whose supply is still zero and histories with a governance update) | " + SWEEP_RULE + "; second stream: messages of the seven cfevesting handlers with randomly drawn values (integers: nil, negative, zero, small, around the "
+        "rule": "signature registry histories (C20: the VerifySignature query over stored records with tampered signatures, foreign and malformed certificates, bundles, unknown algorithm names) | " + MINTER_RULE + " (C20: the Inflation query after every block, incl. mint denominations whose supply is still zero and histories with a governance update) | " + SWEEP_RULE + "; second stream: messages of the seven cfevesting handlers with randomly drawn values (integers: nil, negative, zero, small, around the "
                 "balances / pool amounts / locked coins of the prepared state, around 2^63 and 2^64, up to 60 digits; coin lists of 0-3 entries mixing valid, zero, "
                 "negative, nil amounts and valid / unknown / malformed / empty denominations; denomination lists; durations; times), printed as terms of the model's "
                 "message type; distinct = distinct messages",
@@ -410,9 +413,10 @@ PROPS = {
     "C17": {
         "title": "Genesis lineage of vesting accounts and vesting summaries are accurate",
         "model": "Vest.v: traces in send/split, summary; AccountsProofs.v: Derived",
-        "runs": [vest("", 120, 4000), vest("split", 80, 3000)],
+        "runs": [vest("", 120, 4000), vest("split", 80, 3000),
+                 {"kind": "upgrade", "profile": "", "n_quick": 150, "n_thorough": 5000, "per_shard": 20, "env": {"TZ": "UTC"}}],
         "preds": ["C17."],
-        "rule": VEST_RULE + "; the harness keeps an independent lineage oracle and recomputes both summaries from bank/auth state",
+        "rule": VEST_RULE + "; the harness keeps an independent lineage oracle and recomputes both summaries from bank/auth state; the v1.2.0 upgrade on generated legacy stores (where the genesis marks of the pools come from)",
         "level_text": "Coq theorems: for every history (any length, any depth of split chains) an address is recorded genesis-derived iff it is "
                       "Derived (inductive definition of the property) — both directions; both summary queries equal the sums recomputed from "
                       "account and bank state, delegated = sum of min(vesting, delegated vesting), pools = ledger total in every solvent world. "
